@@ -562,6 +562,44 @@ struct Runner {
       observeStable(x, "final");
     }
     after("final");
+    if (o.measure) mingap(beh["final"]);
+  }
+
+  // C18 MinGap on the lattice: the minimum distance between the two cell sets, clamped to the
+  // search length, 0 when they intersect or touch.  Only for solids without zero-volume flaps
+  // (SurfaceArea = exposed faces), whose surface is exactly the cell boundary.
+  void mingap(const json& fin) {
+    std::vector<const json*> ok;
+    for (auto& f : fin) {
+      const Manifold& m = *h[f["h"].get<int>()].m;
+      if (f["cells"].empty()) continue;
+      if (std::fabs(m.SurfaceArea() - f["faces"].get<double>()) > 1e-9) continue;
+      ok.push_back(&f);
+      if (ok.size() == 3) break;
+    }
+    for (size_t i = 0; i < ok.size(); i++)
+      for (size_t j = i + 1; j < ok.size(); j++) {
+        long best = -1;
+        for (auto& ca : (*ok[i])["cells"])
+          for (auto& cb : (*ok[j])["cells"]) {
+            int a[3], b[3];
+            o.w.dec(ca.get<int>(), a[0], a[1], a[2]);
+            o.w.dec(cb.get<int>(), b[0], b[1], b[2]);
+            long d2 = 0;
+            for (int k = 0; k < 3; k++) {
+              const long g = std::max(0, std::abs(a[k] - b[k]) - 1);
+              d2 += g * g;
+            }
+            if (best < 0 || d2 < best) best = d2;
+          }
+        for (double L : {0.75, 10.0}) {
+          const double want = std::min(L, std::sqrt((double)best));
+          const Manifold &A = *h[(*ok[i])["h"].get<int>()].m, &B = *h[(*ok[j])["h"].get<int>()].m;
+          const double g1 = A.MinGap(B, L), g2 = B.MinGap(A, L);
+          if (std::fabs(g1 - want) > 1e-9 || std::fabs(g2 - want) > 1e-9)
+            fail("measure:mingap", {{"a", (*ok[i])["h"]}, {"b", (*ok[j])["h"]}, {"L", L}, {"want", want}, {"got", g1}, {"gotReversed", g2}});
+        }
+      }
   }
 };
 
